@@ -180,6 +180,26 @@ func (e *affEval) eval(v ssa.Value) aff {
 		}
 		return e.fail("call of %s has no arithmetic summary", cal)
 	}
+	if ex, ok := v.(*ssa.Extract); ok {
+		// one result of a straight-line helper with several results (`f, q := thresholds(n)`)
+		if call, ok := ex.Tuple.(*ssa.Call); ok {
+			if cal := call.Call.StaticCallee(); cal != nil && inModule(funcPkgPath(cal)) && len(cal.Blocks) == 1 && e.deep < 4 {
+				sub := &affEval{p: e.p, k0: e.k0, env: map[ssa.Value]aff{}, deep: e.deep + 1}
+				for i, prm := range cal.Params {
+					sub.env[prm] = e.eval(call.Call.Args[i])
+				}
+				rets := returnsOf(cal)
+				if len(rets) != 1 || ex.Index >= len(rets[0].Results) {
+					return e.fail("callee %s is not a single-expression function", cal)
+				}
+				r := sub.eval(rets[0].Results[ex.Index])
+				if sub.err != "" {
+					return e.fail("%s: %s", cal.Name(), sub.err)
+				}
+				return r
+			}
+		}
+	}
 	return e.fail("unsupported value %T", v)
 }
 
